@@ -37,26 +37,27 @@ type Pipe struct {
 	taken       int
 	reading     int // readers parked in Read
 
-	writes      [][]byte
-	writeTimes  []time.Time
-	gateClosed  bool
-	allow       int    // writes that may pass the closed gate (AllowWrites)
-	partialN    int    // while partialErr is set every Write takes this many bytes ...
-	partialErr  error  // ... and fails with this error (a congested link with a write deadline)
-	partial     []byte // the bytes taken that way, in order
-	parked      int    // writers parked on the gate
-	failAt      map[int]error
-	writeCalls  int
-	alwaysFail  error
-	closeCount  int
-	closeErr    error         // returned by Close (FailClose); the pipe closes all the same
-	closeDelay  time.Duration // Close stays inside the device for this long (SetCloseDelay)
-	closeDone   int           // Close calls that have returned
-	closed      atomic.Bool
-	readsIssued int
-	active      int           // Write calls currently inside the transport
-	overlaps    int           // how often a Write began while another was still in progress
-	writeDelay  time.Duration // each Write stays inside the transport for this long
+	writes       [][]byte
+	writeTimes   []time.Time
+	gateClosed   bool
+	allow        int    // writes that may pass the closed gate (AllowWrites)
+	partialN     int    // while partialErr is set every Write takes this many bytes ...
+	partialErr   error  // ... and fails with this error (a congested link with a write deadline)
+	partial      []byte // the bytes taken that way, in order
+	parked       int    // writers parked on the gate
+	failAt       map[int]error
+	writeCalls   int
+	alwaysFail   error
+	closeCount   int
+	closeErrOnce bool
+	closeErr     error         // returned by Close (FailClose); the pipe closes all the same
+	closeDelay   time.Duration // Close stays inside the device for this long (SetCloseDelay)
+	closeDone    int           // Close calls that have returned
+	closed       atomic.Bool
+	readsIssued  int
+	active       int           // Write calls currently inside the transport
+	overlaps     int           // how often a Write began while another was still in progress
+	writeDelay   time.Duration // each Write stays inside the transport for this long
 }
 
 // NewPipe creates an open pipe.
@@ -216,6 +217,9 @@ func (p *Pipe) Close() error {
 	p.closeCount++
 	p.closed.Store(true)
 	err := p.closeErr
+	if p.closeErrOnce {
+		p.closeErr, p.closeErrOnce = nil, false
+	}
 	d := p.closeDelay
 	p.mu.Unlock()
 	p.cond.Broadcast()
@@ -249,6 +253,15 @@ func (p *Pipe) Released() bool {
 func (p *Pipe) FailClose(err error) {
 	p.mu.Lock()
 	p.closeErr = err
+	p.mu.Unlock()
+}
+
+// FailCloseOnce makes the first Close report err (a close that releases the transport and still reports an error:
+// EINTR from close(2), a flush that failed); later calls report nothing.
+func (p *Pipe) FailCloseOnce(err error) {
+	p.mu.Lock()
+	p.closeErr = err
+	p.closeErrOnce = true
 	p.mu.Unlock()
 }
 
